@@ -163,14 +163,13 @@ func redactFindEmailEnd(src string, atIndex int) int {
 }
 
 func redactEmailCheckNumber(s string) bool {
-	if len(s) < 2 {
+	if len(s) == 0 {
 		return false
 	}
-	if first := s[0]; first < '0' || first > '9' {
-		return false
-	}
-	if last := s[len(s)-1]; last < '0' || last > '9' {
-		return false
+	for i := 0; i < len(s); i++ {
+		if c := s[i]; (c < '0' || c > '9') && c != '.' {
+			return false
+		}
 	}
 	return true
 }
